@@ -8,6 +8,7 @@
 //! the lazy ones).
 
 pub mod bcfraw;
+pub mod bigdict;
 pub mod cmp;
 pub mod gen_;
 pub mod io;
